@@ -144,21 +144,36 @@ HARNESS(one_rule_application_keeps_invariants, 18, [std::time::Instant::now => s
     core::mem::forget(s); core::mem::forget(ctx);
 }
 
-// K-C11-a.2: pop_stack (retry clean-up) keeps the final position on top, never empties the stack, keeps the stacks in sync
+// K-C11-a.2: pop_stack (retry clean-up) keeps the final position on top, never empties the stack, keeps the stacks in sync, and removes
+// only the positions of the `count` retry iterations below it (everything that was current before the command stays undoable)
+fn cmd_of(k: usize) -> &'static str { match k { 0 => "MoveNext", 1 => "ZoomIn", _ => "ReadNext" } }
 HARNESS(pop_stack_keeps_final_position, 18, [std::time::Instant::now => stub_now, str::starts_with => stubs::starts_with]) {
-    let n = 2 + sym::below(2);
-    let cell = RefCell::new(arbitrary_state(n));
+    let n = 3 + sym::below(2);                      // bottom entry + 2..3 entries above it (MINIVEC capacity 4)
+    let mut st0 = NavigationState { position_stack: Vec::with_capacity(4), command_stack: Vec::with_capacity(4), place_markers: Default::default(),
+        where_am_i: NavigationPosition::default(), where_am_i_start_time: Instant::now(), mode: String::new(), speak_overview: false };
+    // positions are told apart by their offset (same id everywhere keeps every String constant)
+    st0.push(pos(0, 0), "None");
+    st0.push(pos(0, 1), cmd_of(sym::below(3)));
+    st0.push(pos(0, 2), cmd_of(sym::below(3)));
+    if n == 4 { st0.push(pos(0, 3), cmd_of(sym::below(3))); }
+    let cell = RefCell::new(st0);
     let count = sym::below(3);
+    sym::assume(count + 1 < n);                      // rule-engine contract (see assumptions): the retries left at least `count` entries above the bottom one
     let before = top_of(&cell.borrow());
     {
         let mut st = cell.borrow_mut();
         pop_stack_wrapper(&mut st, count);
     }
     let s = cell.borrow();
-    cover!(count == 2 && s.position_stack.len() < n, "intermediate positions dropped");
+    cover!(count == 2 && s.position_stack.len() == n - 2, "two intermediate positions dropped");
+    cover!(count == 1 && s.position_stack.len() == n, "nothing dropped below a read command");
     assert!(s.position_stack.len() == s.command_stack.len(), "position and command stacks out of sync");
     assert!(!s.position_stack.is_empty() && top_of(&s) == before, "pop_stack lost the final position");
     assert!(bottom_cmd_is_none(&s), "bottom entry lost");
+    assert!(s.position_stack.len() + count >= n, "pop_stack removed more positions than the retry iterations pushed (undo would skip a position)");
+    // the entries that survive below the top are the oldest ones, in order
+    let mut i = 0;
+    while i + 1 < s.position_stack.len() { assert!(s.position_stack[i].current_node_offset == i, "a position from before the command was dropped or reordered"); i += 1; }
     core::mem::forget(s);
 }
 
@@ -212,6 +227,16 @@ def api_marker_survives(vals=None, out=None):
                    ("mathml", "<math><mi id='u'>u</mi><mo id='q'>-</mo><mi id='v'>v</mi></math>"), ("nav", "MoveTo3"), "navid", "navmathml", ("nav", "MoveNext")])
     bad = [r for r in res[4:] if r[0] != "OK"] or ([res[5]] if res[5][0] == "OK" and res[5][1].split("\t")[0] not in ("u", "q", "v") and not res[5][1].startswith("M") else [])
     return bool(bad), {"script": "expr1: ZoomIn, SetPlacemarker3; set_mathml(expr2); MoveTo3; get_navigation_mathml_id/get_navigation_mathml; MoveNext", "results": res[4:]}
+
+
+def api_undo_after_retry(vals=None, out=None):
+    """Role-level recipe: a move across an unspoken invisible times (Enhanced mode retries), then undo."""
+    res = mcprobe([("pref", "NavMode Enhanced"), ("mathml", "<math><mi id='x'>x</mi><mo id='t1'>&#x2062;</mo><mi id='y'>y</mi><mo id='t2'>&#x2062;</mo><mi id='z'>z</mi></math>"),
+                   ("nav", "ZoomIn"), "navid", ("nav", "MoveNext"), "navid", ("nav", "MoveNext"), "navid", ("nav", "MoveLastLocation"), "navid"])
+    ids = [r[1].split("\t")[0] for r in res if r[0] == "OK" and "\t" in r[1]]
+    # after x -> y -> z, undo must return to y
+    bad = len(ids) < 4 or ids[-1] != ids[1]
+    return bad, {"script": "ZoomIn, MoveNext, MoveNext, MoveLastLocation on x(it)y(it)z in Enhanced mode", "positions": ids, "results": res[2:]}
 
 
 def build(run):
@@ -268,13 +293,14 @@ def build(run):
         dict(id="K-C11-a.one_rule_application", harness="one_rule_application_keeps_invariants", covers=["a move that pushes reachable", "read command reachable"],
              role=lambda v, o: "sync" if "out of sync" in o else ("read-moves" if "moved the position" in o else ("illegal-id" if "illegal node id" in o else "other")),
              claim="one rule application from any state: stacks same length, at most one push, read-type commands keep top(), ILLEGAL id never on top, bottom entry kept"),
-        dict(id="K-C11-a.pop_stack", harness="pop_stack_keeps_final_position", covers=["intermediate positions dropped"], role=lambda v, o: "any",
-             claim="pop_stack(count<=2) on stacks of length >= 2: no unwrap panic, final position stays on top, stacks in sync, bottom entry kept"),
+        dict(id="K-C11-a.pop_stack", harness="pop_stack_keeps_final_position", covers=["two intermediate positions dropped", "nothing dropped below a read command"],
+             role=lambda v, o: "undo-skips-a-position" if "removed more positions" in o or "dropped or reordered" in o else "any", api=lambda v, o: api_undo_after_retry(),
+             claim="pop_stack(count<=2) on stacks of length 3..4: no unwrap panic, final position stays on top, stacks in sync, bottom entry kept, at most `count` entries removed, older entries untouched"),
         dict(id="K-C11-a.move_last_location", harness="move_last_location_restores_previous", covers=["two entries reachable"], role=lambda v, o: "any",
              claim="push(move) followed by the MoveLastLocation statement restores the previous top"),
         dict(id="K-C11-a.set_placemarker_index", harness="set_placemarker_stores_at_its_index", covers=["marker 9 reachable"], role=lambda v, o: "any",
              claim="SetPlacemarkerN writes exactly place_markers[N]; N < 10"),
     ]
     if run.tier == "quick":   # the two slowest inductive steps (250-400 s each) run in the thorough tier only
-        lem = [l for l in lem if l["harness"] not in ("pop_stack_keeps_final_position", "one_rule_application_keeps_invariants", "set_placemarker_stores_at_its_index")]
+        lem = [l for l in lem if l["harness"] not in ("one_rule_application_keeps_invariants", "set_placemarker_stores_at_its_index")]
     run.kani(crate, lem, timeout=600 if run.tier == "quick" else 1800)
